@@ -460,6 +460,10 @@ class Interp:
                 return INV
             if n.attr in ("T", "real", "flat"):
                 return base
+            if isinstance(base, Obj) and n.attr in ("eps", "tiny", "max",
+                                                    "min", "resolution",
+                                                    "epsilon"):
+                return NUM
             if isinstance(base, Obj) or n.attr in ("value", "params",
                                                    "success", "best_fit",
                                                    "stderr"):
@@ -751,8 +755,22 @@ class Interp:
             return Obj()
         if cn == "lmfit.Parameters" or short in ("Parameters",):
             return Obj()
+        if cn in ("np.finfo", "np.iinfo", "numpy.finfo", "numpy.iinfo",
+                  "sys.float_info"):
+            return Obj()
         if short in KEEP_FILTERS:
             return a0 if a0 is not None else Top(cn)
+        if short in ("max", "min") and not is_method and len(args) >= 2 \
+                and cn in ("max", "min"):
+            out = args[0]
+            for other in args[1:]:
+                r = self.compare(out, other, ast.Lt(), n)
+                if isinstance(r, Err):
+                    return Err(f"`{norm(n)[:60]}` takes the {short} of "
+                               f"{out} and {other}: the outcome changes "
+                               "with the unit/offset of the force", n)
+                out = join(out, other)
+            return out
         if short in KEEP:
             if short in ("maximum", "minimum") and len(args) >= 2:
                 r = self.compare(args[0], args[1], ast.Lt(), n)
